@@ -203,6 +203,8 @@ func (fr *frame) tryMerge(instr *ssa.If, c *Term) (merged bool) {
 	var arms [2]*overlay
 	var lastPred [2]*ssa.BasicBlock
 	var results [2]Value
+	var armPhis [2][]Value
+	var armPhiSet [2]bool
 	for k := 0; k < 2; k++ {
 		ov := newOverlay()
 		e.spec = append(e.spec, ov)
@@ -222,6 +224,20 @@ func (fr *frame) tryMerge(instr *ssa.If, c *Term) (merged bool) {
 		}
 		lastPred[k] = fr.prev
 		results[k] = fr.result
+		if fr.phiDone {
+			// a nested merge ended at this same join and has already merged its phis
+			fr.phiDone = false
+			var vals []Value
+			for _, in := range join.Instrs {
+				phi, ok := in.(*ssa.Phi)
+				if !ok {
+					break
+				}
+				vals = append(vals, fr.env[phi])
+			}
+			armPhis[k] = vals
+			armPhiSet[k] = true
+		}
 		e.spec = e.spec[:depth]
 		arms[k] = ov
 	}
@@ -251,6 +267,10 @@ func (fr *frame) tryMerge(instr *ssa.If, c *Term) (merged bool) {
 		phi := join.Instrs[i].(*ssa.Phi)
 		var vs [2]Value
 		for k := 0; k < 2; k++ {
+			if armPhiSet[k] {
+				vs[k] = armPhis[k][i]
+				continue
+			}
 			found := false
 			for pi, pred := range join.Preds {
 				if pred == lastPred[k] {
